@@ -138,6 +138,7 @@ PROPS = {
     },
     "C20": {
         "kani": [K("core", "extract_meta_var_len4", "extract_meta_var over {$,A,_,1,a}^<=4 against the spelling table of the property", bound="strings over {$,A,_,1,a}, length <= 4"),
+                 K("core", "extract_meta_var_ellipsis5", "the ellipsis spellings $$$, $$$x, $$$xy against the spelling table", bound="strings $$$ + at most 2 characters over {$,A,_,1,a}"),
                  K("core", "extract_meta_var_len6", "same, length <= 6", bound="strings over {$,A,_,1,a}, length <= 6", tier="thorough"),
                  K("core", "split_first_meta_var_len5", "fix-template variable scanner vs the spelling table", bound="strings over {$,A,a,_,1,space}, length <= 5"),
                  K("config", "parse_an_b_len4", "parse_an_b vs reference An+B grammar", bound="strings over {9,1,n,+,-,space}, length <= 4"),
